@@ -234,10 +234,25 @@ def run(ctx):
         raise core.MachineryError(f"edge dump too small: {len(edges)}")
     ctx.note("edges", len(edges))
     ctx.exhaustive = True
-    # ---- spec -> code: replay every edge
-    traces = []
-    unbuilt = []
+    # ---- spec -> code: replay every edge (streamed in chunks: a trace carries the whole projected storage after every step)
     seen = set()
+    sampled = [False]
+    ntr = [0]
+
+    def flush(part, unbuilt):
+        if not part:
+            return
+        if not sampled[0]:
+            ctx.sample({"replayed_edge": part[len(part) // 2]})
+            sampled[0] = True
+        rej = ctx.validate_traces("Trace_Storage", "Trace_Storage.cfg", part)
+        judge(ctx, part, rej, "edge replay")
+        rejected = {tid for tid, _, _ in rej}
+        if any(i not in rejected for i in unbuilt):
+            raise core.MachineryError("a source state could not be constructed although TLC accepts every set-up step")
+        ntr[0] += len(part)
+
+    part, unbuilt = [], []
     for e in edges:
         k = core.digest([e["from"], e["act"]])
         if k in seen:
@@ -247,21 +262,16 @@ def run(ctx):
         pre = sut.build(e["from"])
         built = sut.project() == e["from"]
         if not built:
-            unbuilt.append(len(traces))      # TLC must reject the set-up steps of this trace; checked below
-            traces.append({"init": [], "ev": pre})
+            unbuilt.append(len(part))      # TLC must reject the set-up steps of this trace; checked in flush
+            part.append({"init": [], "ev": pre})
         else:
-            traces.append({"init": [], "ev": pre + [sut.apply(e["act"])]})
+            part.append({"init": [], "ev": pre + [sut.apply(e["act"])]})
         ctx.count(k if e["act"]["op"] != "match_uuid" or e["from"] else None)
-    ctx.sample({"replayed_edge": traces[len(traces) // 2]})
-    rejected = set()
-    base = 0
-    for part in core.chunks(traces, 20000):
-        rej = ctx.validate_traces("Trace_Storage", "Trace_Storage.cfg", part)
-        judge(ctx, part, rej, "edge replay")
-        rejected |= {base + tid for tid, _, _ in rej}
-        base += len(part)
-    if any(i not in rejected for i in unbuilt):
-        raise core.MachineryError("a source state could not be constructed although TLC accepts every set-up step")
+        if len(part) >= 4000:
+            flush(part, unbuilt)
+            part, unbuilt = [], []
+    flush(part, unbuilt)
+    ctx.note("edges_replayed", ntr[0])
     # ---- code -> spec: random histories
     n, ln = (400, 60) if ctx.quick else (4000, 300)
     hist = []
